@@ -1,0 +1,19 @@
+//! Verification hooks, compiled only with `--cfg cfb_verif`.  With no
+//! override installed the real clock is read, so behaviour is unchanged.
+
+use std::cell::Cell;
+use web_time::SystemTime;
+
+thread_local! {
+    static CLOCK: Cell<Option<SystemTime>> = const { Cell::new(None) };
+}
+
+/// Installs (or, with `None`, removes) the simulated clock for this thread.
+pub fn set_clock(now: Option<SystemTime>) {
+    CLOCK.with(|c| c.set(now));
+}
+
+/// Returns the simulated clock reading for this thread, if one is installed.
+pub fn clock_override() -> Option<SystemTime> {
+    CLOCK.with(|c| c.get())
+}
